@@ -184,7 +184,7 @@ theorem glyph_ids_are_real_glyphs (font : Pass.Font) (N cmapMax : Nat) (hcm : âˆ
   exact Pass.shape_gid (by omega) font (fun u => by have := hcm u; omega) h2 text fuel dir e
 
 /-- each single opcode keeps the glyph ids below the glyph count (the induction step, exported for the audit) -/
-theorem every_opcode_keeps_glyph_ids {N : Nat} {K : Array (List Nat)} (hN : 0 < N) (hK : ClassesOK N K) : OpsPreserve (PG N K) := ops_PG hN hK
+theorem every_opcode_keeps_glyph_ids {N : Nat} {K : Array (List Nat)} (hN : 0 < N) (hK : ClassesOK N K) : OpsPreserve (PGid N K) := ops_PGid hN hK
 
 /-- the hypotheses are satisfiable, and the clause is not true without them: a font whose class 0 names glyph 12 meets the test for
 `N = 13` and fails it for `N = 10` -/
